@@ -229,6 +229,43 @@ func jqLeafKind(q *gojq.Query) string {
 	return "expr"
 }
 
+// c16LeafExact: what the leaf of a scalar / bytes / numeric-bool arm must be so that the result is
+// the encoded value: `.<field> | tovalue` (a byte string may also use tostring: both give the
+// bytes as a string; tostring / tojson of a number or bool is a different value), and a numeric
+// bool is true exactly when the octet is not 0.
+func c16LeafExact(class string, st []*gojq.Query, p []string) string {
+	switch class {
+	case "scalar", "bytes":
+		if len(st) != 2 || len(p) != 1 {
+			return "expected `.<field> | tovalue`"
+		}
+		last := st[len(st)-1]
+		if fw.JQIsCall(last, "tovalue", 0) != nil {
+			return ""
+		}
+		if class == "bytes" && fw.JQIsCall(last, "tostring", 0) != nil {
+			return ""
+		}
+		return "the value is converted (tostring / tojson of a number, bool or null is not that value); expected tovalue"
+	case "bool":
+		c := jqStrip(st[0])
+		if len(st) != 1 || c == nil || c.Left == nil || len(p) != 1 {
+			return "expected `.<field> != 0`"
+		}
+		n, ok := fw.JQConstNumber(jqStrip(c.Right))
+		if !ok {
+			return "the octet is not compared with a number"
+		}
+		switch {
+		case c.Op == gojq.OpNe && n == "0", c.Op == gojq.OpGt && n == "0", c.Op == gojq.OpGe && n == "1", c.Op == gojq.OpEq && n == "1":
+			// (== 1 agrees with != 0 on every octet an encoder emits)
+			return ""
+		}
+		return "true must be `octet != 0` or `== 1` (the comparison `" + c.Op.String() + " " + n + "` maps some octets to the opposite truth value)"
+	}
+	return ""
+}
+
 // ---------------------------------------------------------------------------
 
 type c16Reducer struct {
@@ -283,7 +320,7 @@ func (r *c16Reducer) recursive(q *gojq.Query) bool {
 func (x *c16) repr(fs []*c16Format) {
 	rd := x.r.Rule("C16.repr.dispatch", "torepr: funcs.jq torepr calls _format_func(format; \"torepr\"), the generated dispatcher names _<format>_<func>, each binary format registers Functions [\"torepr\"] under the group name its reducer is named after", 7)
 	rs := x.r.Rule("C16.repr.syms", "torepr reducers: every string a reducer compares a discriminator with is a Sym the Go table of that field emits, every field a reducer indexes is created by the format's decoder", 25)
-	rt := x.r.Rule("C16.repr.route", "torepr reducers: every Go table row is routed (by its Sym) to an arm whose first index is a field the row's handler adds and whose construction fits the row's class (map / array / bytes / scalar / numeric bool)", 60)
+	rt := x.r.Rule("C16.repr.route", "torepr reducers: every Go table row is routed (by its Sym) to an arm whose first index is a field the row's handler adds and whose construction fits the row's class (map / array / bytes / scalar / numeric bool): scalars are exactly `.<field> | tovalue`, a numeric bool is `.<field> != 0`", 70)
 	rb := x.r.Rule("C16.repr.build", "torepr reducers: map arms are path | map({key,value}) | from_entries (or end in `// {}`) with key from the key field and value from the value field through the reducer; array arms are path | map(reducer): empty containers yield {} / []", 9)
 	x.reprDispatch(rd, fs)
 	for _, f := range fs {
@@ -363,6 +400,13 @@ func (x *c16) repr(fs []*c16Format) {
 			}
 			kind := jqLeafKind(st[len(st)-1])
 			want := map[string]string{"map": "object-total", "array": "array-total", "bytes": "scalar", "scalar": "scalar", "bool": "bool"}[row.Class]
+			if kind == want {
+				// the leaf yields the decoded value itself, not a conversion of it
+				if why := c16LeafExact(row.Class, st, p); why != "" {
+					rt.Fail(key, row.Pos, fmt.Sprintf("a %s row is routed to arm %s `%s`: %s", row.Class, trace, fw.JQStr(leaf), why))
+					continue
+				}
+			}
 			rt.Check(kind == want, key, row.Pos, fmt.Sprintf("%s -> %s (%s)", row.Class, trace, kind), fmt.Sprintf("a %s row is routed to arm %s whose result is built by %s, expected %s", row.Class, trace, kind, want))
 			if (row.Class == "map" || row.Class == "array") && !built[trace] {
 				built[trace] = true
